@@ -160,6 +160,8 @@ public:
     virtual ~QObject() {}
     std::string m_objectName;
     void setObjectName(const char *n) { m_objectName = n; }
+    inline void setObjectName(const QString &n);   // the Q_PROPERTY setter
+    inline QString objectName() const;
 
     template <class S, class C, class... A, class F>
     static QMetaObject::Connection connect(S *sender, void (C::*sig)(A...), QObject *context, F slot) {
@@ -282,6 +284,12 @@ public:
     }
 };
 #define QStringLiteral(str) QString(u"" str, sizeof(u"" str) / 2 - 1)
+
+inline void QObject::setObjectName(const QString &n) {
+    // object names identify objects in the event log: the model keeps the name given by the form
+    qvm::put("\"ev\":\"write\",\"obj\":" + qvm::jstr(m_objectName) + ",\"prop\":\"objectName\",\"value\":{\"units\":" + std::to_string(n.d.size()) + "}");
+}
+inline QString QObject::objectName() const { return QString::fromUtf8(m_objectName.c_str()); }
 
 namespace qvm {
 template <> struct Show<QString> {
